@@ -63,7 +63,9 @@ func Lint(stream io.Reader, lc LintConfig) error {
 	err := parser.ParseStreamCallback(stream, lc.ParserConfig, func(node *shared.ParserNode, err error) (stop bool, cbError error) {
 		if err != nil {
 			errorCount++
-			fmt.Fprintln(lc.ReporterConfig.Output, err)
+			if _, wErr := fmt.Fprintln(lc.ReporterConfig.Output, err); wErr != nil {
+				return true, wErr
+			}
 		}
 		return false, nil
 	})
@@ -74,7 +76,9 @@ func Lint(stream io.Reader, lc LintConfig) error {
 		return fmt.Errorf("%d errors found", errorCount)
 	}
 	if !lc.Silent {
-		fmt.Fprintln(lc.ReporterConfig.Output, "No errors found")
+		if _, err := fmt.Fprintln(lc.ReporterConfig.Output, "No errors found"); err != nil {
+			return err
+		}
 	}
 	return nil
 }
